@@ -1,11 +1,11 @@
 ----------------------------- MODULE Trace_Faults -----------------------------
 EXTENDS Faults, Json, IOUtils
 VARIABLE dummy
-Traces == ndJsonDeserialize(IOEnv.TRACE)   \* [id, kind, k, n, reject, outcome, leak, hits, probe]
+Traces == ndJsonDeserialize(IOEnv.TRACE)   \* [id, kind, k, n, reject, outcome, leak, hits, probe, ev, pev]  (ev/pev: delivered items as strings)
 ASSUME \A i \in 1..Len(Traces) :
           LET t == Traces[i] IN
-          OutcomeAllowed(t.kind, t.k, t.n, t.reject, t.outcome, t.leak, t.hits, t.probe)
-          \/ PrintT(<<"BAD", ToJson([id |-> t.id, why |-> Why(t.kind, t.k, t.n, t.reject, t.outcome, t.leak, t.hits, t.probe)])>>)
+          OutcomeAllowed(t.kind, t.k, t.n, t.reject, t.outcome, t.leak, t.hits, t.probe, t.ev, t.pev)
+          \/ PrintT(<<"BAD", ToJson([id |-> t.id, why |-> Why(t.kind, t.k, t.n, t.reject, t.outcome, t.leak, t.hits, t.probe, t.ev, t.pev)])>>)
 ASSUME PrintT(<<"CHECKED", ToJson([n |-> Len(Traces)])>>)
 Init == dummy = 0
 Next == UNCHANGED dummy
